@@ -377,3 +377,35 @@ def destructor_always_restores(ck, tm, g, rule):
                       n_, "" if n_ == 1 else " [%s]" % fmt_dec(v)))
     ck.floor(rule, "returning-destructor-paths", n, 1, tm.target)
     return n
+
+
+def restore_lands_on_entry(ck, tm, g, rule, roots):
+    """On every returning path of every install root: the guard stored by the installation records, as the address its
+    destructor will write to, exactly the address the entry write went to, and as length the number of bytes written there
+    (the destructor writes saved[..len] at addr: C02 R2.2). Shared by C02 R2.1 (which also checks the saved bytes), C03 R3.8
+    and C16 R16.5: a guard that remembers another address makes the *removal* touch bytes outside the designated entry."""
+    n = 0
+    for p, func, repl, boolval in roots:
+        rn = short(p)
+        for v in tm.variants(p):
+            if v.status != "returned":
+                continue
+            pg = pushed_guards(v, g.adt)
+            cw = classify_writes(v, func)
+            if tm.arch == "arm":
+                cw = [(ev, "entry", d, r, a) for ev, _, d, r, a in cw]
+            entries = [c for c in cw if c[1] == "entry"]
+            if len(pg) != 1 or len(entries) != 1:
+                continue
+            n += 1
+            pev, gv, cont = pg[0]
+            eev, _, edst, ereal, alias = entries[0]
+            ga, gl = guard_field(gv, None, g.addr), guard_field(gv, None, g.len)
+            ok_addr = isinstance(ga, Int) and same_expr(ga.e, ereal.e)
+            ok_len = g.len_is_saved_len or (isinstance(gl, Int) and same_expr(gl.e, eev.extra["count"].e))
+            ck.ob(rule, "%s/restore-lands-on-the-entry-written" % rn, tm.target, ok_addr and ok_len,
+                  "the guard will restore %s byte(s) at %s; the installation wrote %s byte(s) at %s" % (
+                      fmt(gl.e) if isinstance(gl, Int) else ("saved.len()" if g.len_is_saved_len else gl), fmt(ga.e, 4) if isinstance(ga, Int) else ga,
+                      fmt(eev.extra["count"].e), fmt(ereal.e, 4)), where(pev))
+    ck.floor(rule, "install-paths-with-one-guard-and-one-entry-write", n, 6, tm.target)
+    return n
